@@ -37,16 +37,11 @@ def sym_ecube(vi, xi, name):
     return Agg("adt", ECUBE, 0, f)
 
 
-def run(chk):
-    facts = F.load("dbg")
-    chk.trust("rustc MIR construction; std summaries (count_ones as an adder tree whose low bit is the xor of all bits)")
-    chk.assume("containers are analysed for lengths 0..3 of symbolic terms; the loops are length-generic code")
-    vi, xi = ecube_fields(facts)
-    ms = facts.inherent_methods(ECUBE)
-    # ------------------------------------------------------------------ Ecube::value
+def ecube_value_rule(chk, facts, vi, xi, ms, rule):
+    """Ecube::value(m) = parity(vars & m) ^ xnor (shared by C13 and C16)"""
     b = ms.get("value")
     if b is None:
-        chk.refuted("C13.E", "anchor-missing: Ecube::value", "")
+        chk.refuted(rule, "anchor-missing: Ecube::value", "")
     else:
         key = "Ecube::value is parity(vars & m) ^ xnor"
         try:
@@ -71,7 +66,16 @@ def run(chk):
                     v, d = UNDECIDED, "result %r" % (r,)
         except Undecided as ex:
             v, d = UNDECIDED, ex.cause
-        chk.add("C13.E", key, v, d, where=where_of(b), sample=dict(obligation=key, lanes=32, verdict=v))
+        chk.add(rule, key, v, d, where=where_of(b), sample=dict(obligation=key, lanes=32, verdict=v))
+
+
+def run(chk):
+    facts = F.load("dbg")
+    chk.trust("rustc MIR construction; std summaries (count_ones as an adder tree whose low bit is the xor of all bits)")
+    chk.assume("containers are analysed for lengths 0..3 of symbolic terms; the loops are length-generic code")
+    vi, xi = ecube_fields(facts)
+    ms = facts.inherent_methods(ECUBE)
+    ecube_value_rule(chk, facts, vi, xi, ms, "C13.E")
     # ------------------------------------------------------------------ ^ and ! forms
     nforms = 0
     for bd, sty, tr in facts.trait_impl_methods("std::ops::"):
@@ -154,15 +158,10 @@ def run(chk):
     reduction_rules(chk, facts, SOES, "or", "C13.S", "std::ops::BitOr")
 
 
-def reduction_rules(chk, facts, adt, op, rule, combine_trait, lens=(0, 1, 2, 3)):
-    """shared by Soes (OR), Sop (OR) and Esop (XOR): value reduction, concatenating operator,
-    tabulation into a Lut, is_zero/is_one soundness"""
-    C = Container(facts, adt)
-    env = Env(facts)
-    KD = env.kinds["dyn"]
+def container_value_rule(chk, facts, C, op, rule, lens=(0, 1, 2, 3)):
+    """value(m) of a Sop / Soes / Esop is the OR / XOR of the values of all its terms (shared with C16)"""
     red = {"or": B.bor, "xor": B.bxor}[op]
-    short = adt.split("::")[-1]
-    chk.add(rule, "%s fields are private" % short, PROVED if C.private else REFUTED, "")
+    short = C.adt.split("::")[-1]
     # value(mask)
     b = C.method("value")
     for names in [["c%d" % j for j in range(L)] for L in lens] + [["c0", "c0"], ["c0", "c1", "c0"], ["c0", "c0", "c0"]]:
@@ -188,6 +187,18 @@ def reduction_rules(chk, facts, adt, op, rule, combine_trait, lens=(0, 1, 2, 3))
         except Undecided as ex:
             v, d = UNDECIDED, ex.cause
         chk.add(rule, key, v, d, where=where_of(b), sample=dict(obligation=key, verdict=v) if L == 2 else None)
+
+
+def reduction_rules(chk, facts, adt, op, rule, combine_trait, lens=(0, 1, 2, 3)):
+    """shared by Soes (OR), Sop (OR) and Esop (XOR): value reduction, concatenating operator,
+    tabulation into a Lut, is_zero/is_one soundness"""
+    C = Container(facts, adt)
+    env = Env(facts)
+    KD = env.kinds["dyn"]
+    red = {"or": B.bor, "xor": B.bxor}[op]
+    short = adt.split("::")[-1]
+    chk.add(rule, "%s fields are private" % short, PROVED if C.private else REFUTED, "")
+    container_value_rule(chk, facts, C, op, rule, lens)
     # combining operator: concatenation (simplification handled by the caller for Sop)
     forms = [(bd, "<%s as %s>::%s" % (sty["s"], tr["s"], bd["name"])) for bd, sty, tr in facts.trait_impl_methods(combine_trait) if (sty["t"] if sty["k"] == "ref" else sty).get("path") == adt]
     chk.floor(rule + " operator forms", len(forms), 4)
